@@ -311,9 +311,11 @@ func c12RefType(kind string) string {
 	return "bytes"
 }
 
-// c12RefDecl is the referenced integration: event Reg(<type> who) → table rt1(who).
-func c12RefDecl(kind string) *world.Decl {
-	return &world.Decl{Name: "r1", Table: "rt1", Event: "Reg", Sources: []world.SrcRef{{Name: "src1", Start: 1}},
+// c12RefDecl is the referenced integration: event Reg(<type> who) → table <table>(who). The table name is
+// distinct per job, so that nothing a process remembers about one job's referenced table (statement
+// caches, memoised look-ups) can answer for another job: a job replayed alone sees what the worker saw.
+func c12RefDecl(kind, table string) *world.Decl {
+	return &world.Decl{Name: "r1", Table: table, Event: "Reg", Sources: []world.SrcRef{{Name: "src1", Start: 1}},
 		Inputs: []world.Input{{Name: "who", Type: c12RefType(kind), Column: "who"}}}
 }
 
